@@ -47,6 +47,8 @@ pub fn run(r: &mut Report) {
     {
         let mut ts: Vec<String> = (0u32..0x20).chain([0x22, 0x5c, 0x7f, 0x80, 0x2028, 0x1f600]).map(|c| format!("c{}d", char::from_u32(c).unwrap())).collect();
         for t in ["", "plain", "bs-lf\\\nend", "lf-bs\n\\end", "\\n", "q\"\\\"q", "\u{e9}\u{20ac}"] { ts.push(t.to_string()); }
+        // path-shaped texts (the text sits in artifact paths, subject names and URIs as well): nothing is normalised on the way
+        for t in ["a//b", "a///b", "a////b/", "./a", "a/./b", "a/../b", "/abs", "dir/", "//", "///", "a\\b", " lead", "trail ", "..", "."] { ts.push(t.to_string()); }
         let (mut n, mut bad): (usize, Vec<String>) = (0, vec![]);
         for t in &ts {
             let preds = vec![json!({"byproducts": {"return-value": 0, "stderr": t, "stdout": t}, "command": [t], "env": {t.as_str(): t}, "materials": {format!("m{}", t): {"sha256": "00"}}, "name": t}),
